@@ -229,9 +229,9 @@ def rule_order(ck):
 def rule_event_flags(ck, rid="C05.R3"):
     """every event branch of _process_event demands a new schedule (resolve = True on every path, never cleared there)"""
     repo = ck.repo
-    pe = repo.fn("Simulator._process_event")
+    from .c01 import dispatch_branches, event_type_literals, process_event_by_type
+    pe, _split = process_event_by_type(repo)
     pfl = flow_of(pe)
-    from .c01 import dispatch_branches, event_type_literals
     br = dispatch_branches(pfl, pe.params[1])
     lits = set(event_type_literals(repo).values())
     ck.require(set(br) >= lits, rid, pe, "dispatch", ok="every event type dispatched", bad=f"event types without a branch: {sorted(lits - set(br))}",
